@@ -210,9 +210,31 @@ def run_mrf(c, rec):
     mu = np.broadcast_to(np.asarray(locv, dtype=float), (dim,)).copy()
     base = scalar(d.logd(mu))
     if not np.isfinite(base):
+        # (only the recorded GMRF neumann / order 2 rank finding makes the log-density at the location non-finite)
+        require(fam == "GMRF" and bc == "neumann" and order == 2, f"{fam}(bc={bc}, order={order}, {dim} nodes): the log-density at the "
+                "location is not finite, so no gradient can be the derivative of this object's log-density", logd=base)
         rec.inconc("own_logd_not_finite")
         return
+    bx = scalar(d.logd(x))
+    require(np.isfinite(bx) or (fam == "GMRF" and bc == "neumann" and order == 2), f"{fam}(bc={bc}, order={order}, {dim} nodes): the log-density "
+            "at an ordinary field is not finite", logd=bx)
     judge(f"{fam}(bc={bc}, order={order})", d.gradient, d.logd, x, rec)
+    # fields on a large base line: with periodic / Neumann boundary conditions the density depends on differences only, so its
+    # gradient cannot change when a constant is added to the field (finite differences of the log-density are useless at such
+    # offsets, the invariance is exact)
+    if bc in ("periodic", "neumann") and (fam != "GMRF" or order >= 1) and fam in ("GMRF", "CMRF"):
+        r0, g0 = refuses(lambda: d.gradient(x.copy()))
+        if not r0 and g0 is not None and np.all(np.isfinite(np.asarray(g0, dtype=float))):
+            g0 = np.asarray(g0, dtype=float).reshape(-1)
+            strength = float(c["prec"]) if fam == "GMRF" else 1.0 / float(c["scale"]) ** 2
+            for off in (2.0e4, 1.0e6):
+                r1, g1 = refuses(lambda: d.gradient(x + off))
+                require(not r1 and g1 is not None, f"{fam}(bc={bc}, order={order}): gradient refused for a field on a large base line", offset=off)
+                g1 = np.asarray(g1, dtype=float).reshape(-1)
+                tol = 1e-9 * np.max(np.abs(g0)) + 64 * np.finfo(float).eps * off * strength * 16
+                require(float(np.max(np.abs(g1 - g0))) <= tol, f"{fam}(bc={bc}, order={order}): the gradient changes when a constant is added to "
+                        "the field although the log-density depends on differences only", offset=off, change=float(np.max(np.abs(g1 - g0))), tol=tol)
+            rec.count("translation_invariance_checked")
 
 
 @st.composite
